@@ -319,6 +319,79 @@ where
     Ok(results)
 }
 
+/// Gives an external simulator access to the request handlers behind the HTTP routes, without a
+/// web server.
+#[cfg(getong_stateright_verif)]
+pub mod verif_facade {
+    use super::*;
+
+    /// What the handlers share: the snapshot the visitor fills in and the checker.
+    pub struct Handle<M: Model, C>(Data<M::Action, C>);
+
+    impl<M: Model, C> Clone for Handle<M, C> {
+        fn clone(&self) -> Self {
+            Handle(Arc::clone(&self.0))
+        }
+    }
+
+    /// The visitor `serve` installs, together with the handle it would share with the server.
+    pub fn new_visitor<M: Model>() -> (impl CheckerVisitor<M> + Send + Sync + Clone + 'static, Snap<M>)
+    where
+        M::Action: Send + Sync + 'static,
+    {
+        let snapshot = Arc::new(RwLock::new(Snapshot(true, None)));
+        (Arc::clone(&snapshot), Snap(snapshot))
+    }
+
+    /// Opaque snapshot.
+    pub struct Snap<M: Model>(Arc<RwLock<Snapshot<M::Action>>>);
+
+    impl<M: Model> Snap<M> {
+        /// Asks the visitor to record the next path it sees (what the 4 s ticker does).
+        pub fn rearm(&self) {
+            self.0.write().0 = true;
+        }
+    }
+
+    /// Binds a checker to a snapshot.
+    pub fn handle<M: Model, C: Checker<M>>(snap: Snap<M>, checker: Arc<C>) -> Handle<M, C> {
+        Handle(Arc::new((snap.0, checker)))
+    }
+
+    /// `GET /.status` as JSON.
+    pub fn status<M, C>(h: &Handle<M, C>) -> serde_json::Value
+    where
+        M: Model,
+        M::Action: Debug,
+        M::State: Hash,
+        C: Checker<M>,
+    {
+        serde_json::to_value(super::status(Arc::clone(&h.0))).unwrap()
+    }
+
+    /// `GET /.states<path>` as JSON, or the 404 message.
+    pub fn states<M, C>(path: &str, h: &Handle<M, C>) -> Result<serde_json::Value, String>
+    where
+        M: Model,
+        M::Action: Debug,
+        M::State: Debug + Hash,
+        C: Checker<M>,
+    {
+        super::states(path, Arc::clone(&h.0)).map(|views| serde_json::to_value(views).unwrap())
+    }
+
+    /// `POST /.runtocompletion`; returns the status code.
+    pub fn run_to_completion<M, C>(h: &Handle<M, C>) -> u16
+    where
+        M: Model,
+        M::Action: Debug,
+        M::State: Hash,
+        C: Checker<M>,
+    {
+        super::run_to_completion(Arc::clone(&h.0)).status_code().0
+    }
+}
+
 #[cfg(test)]
 mod test {
     use super::*;
